@@ -83,7 +83,12 @@ def gen_case(run_seed: int, index: int, tier: str) -> dict:
     very_long = index % 2500 == 5  # one very long random sequence per 2500 runs
     if very_long:
         scheme = rng.choice(["qam", "qam", "psk", "pam"])
+    long_dpsk = index % 5000 == 6  # and one very long differential sequence per 5000 runs (the modulator walks it symbol by symbol: ~15 s)
+    if long_dpsk:
+        scheme = "dpsk"
     mod = C.gen_mod_spec(rng, [scheme])
+    if long_dpsk:
+        mod = {"scheme": "dpsk", "order": 16, "gray": rng.random() < 0.5, "via": "order", "label_kw": "gray_coding", "size_kw": "order"}
     case = {"mod": mod, "via_registry": rng.random() < 0.25}
     try:
         m, _ = C.build_modem(mod, case["via_registry"])
@@ -127,6 +132,10 @@ def gen_case(run_seed: int, index: int, tier: str) -> dict:
             syms = [rng.randrange(M) for _ in range(rng.choice([2, 3, 4, 7, 16, 33, 64, 200]))]
         seqs.append(_bits_for_symbols(syms, bps))
     L = min(len(s) for s in seqs)
+    if long_dpsk:
+        case["pre"] = []
+        case["check"] = {"layout": "2d", "kind": "very_long", "long_seed": rng.randrange(1 << 31), "nsym": 900_000, "bits": None, "dtype": "float32", "noncontig": False, "tail_only": 60_000}
+        return case
     if very_long:
         # longer than any internal table / block size that scales as 2**24 / order
         nlong = min((1 << 24) // M + rng.choice([1000, 4464]), 4_300_000)
@@ -135,7 +144,9 @@ def gen_case(run_seed: int, index: int, tier: str) -> dict:
                          "dtype": "float32", "noncontig": False}
         return case
     case["check"] = {"layout": layout, "kind": kind, "bits": [s[:L] for s in seqs],
-                     "dtype": rng.choice(["float32", "float32", "float64", "int64"]), "noncontig": rng.random() < 0.2}
+                     "dtype": rng.choice(["float32", "float32", "float64", "int64"]), "noncontig": rng.random() < 0.2,
+                     # another user's frame of the same shape is modulated by the same object before this one is demodulated
+                     "frame_between": rng.random() < 0.3, "between_seed": rng.randrange(1 << 31)}
     return case
 
 
@@ -243,6 +254,13 @@ def execute(case: dict) -> RunResult:
             def forward(self, t, *a, **k):
                 tap.append(t.detach().clone())
                 tap.append(t)  # the very tensor the demodulator is given
+                if chk.get("frame_between"):
+                    gb = torch.Generator().manual_seed(chk["between_seed"])
+                    other = torch.randint(0, 2, tuple(x.shape), generator=gb).to(x.dtype)
+                    mod(other)  # eval mode after a reset: this must neither disturb the frame in flight nor the state
+                    res.faults["history.other_frame_modulated_in_between"] += 1
+                    if not torch.equal(t, tap[0]):
+                        violate("symbols_overwritten", "modulating another frame overwrote the symbols returned for the first frame")
                 return super().forward(t, *a, **k)
 
         with torch.no_grad():
@@ -275,6 +293,15 @@ def execute(case: dict) -> RunResult:
             if list(out.shape[:-1]) != list(x.shape[:-1]) or outr.shape[-1] != len(exp):
                 violate("output_length", f"demodulated shape {list(out.shape)}, expected {list(x.shape[:-1]) + [len(exp)]} bits")
                 break
+            tail = chk.get("tail_only")
+            if tail:
+                got_t = outr[r][-tail * bps:].to(torch.float64)
+                exp_t = torch.tensor(exp[-tail * bps:], dtype=torch.float64)
+                nbad = int((got_t != exp_t).sum())
+                if nbad:
+                    violate("mismatch", f"row {r}: {nbad} of the last {tail * bps} bits of a {nsym}-symbol sequence differ")
+                    break
+                continue
             got = outr[r].tolist()
             bad = [i for i, (g, e, mk) in enumerate(zip(got, exp, mask)) if mk and g != e]
             if bad:
